@@ -155,9 +155,15 @@ func NewExec(cfg M) (*Exec, error) {
 	if t := S(cfg, "term"); t != "" && t != "none" {
 		opts = append(opts, wire.TerminateConn(x.terminate))
 	}
+	emptyViaField := false
 	switch S(cfg, "tls") {
 	case "empty":
-		opts = append(opts, wire.TLSConfig(&tls.Config{}))
+		// an empty certificate list reaches the server through the option or through the exported field
+		if I(cfg, "_tlsfield") == 1 {
+			emptyViaField = true
+		} else {
+			opts = append(opts, wire.TLSConfig(&tls.Config{}))
+		}
 	case "cert":
 		c, err := SelfSigned()
 		if err != nil {
@@ -168,6 +174,9 @@ func NewExec(cfg M) (*Exec, error) {
 	srv, err := wire.NewServer(x.parse, opts...)
 	if err != nil {
 		return nil, err
+	}
+	if emptyViaField {
+		srv.TLSConfig = &tls.Config{}
 	}
 	x.Srv = srv
 	go func() { x.served <- srv.Serve(x.Lis) }()
